@@ -90,7 +90,9 @@ class TransitionDipoleMoment(SelfAdjointOperator, BasisManaged):
         """Returns a component of the transition dipole moment operator
         
         """
-        return SelfAdjointOperator(dim=self.dim, data=self.data[:,:,n])
+        # (a copy: the new operator is transformed on its own)
+        return SelfAdjointOperator(dim=self.dim, 
+                                   data=self.data[:,:,n].copy())
     
     def get_dipole_length_operator(self):
         """Returns operator composed of the dipole strengths
